@@ -16,6 +16,8 @@ func init() {
 		Decides: "R11.1: every privileged sink of the signalling handler (publishing, chat forwarding/history, clearchat, lock, subgroups, setdata, kick, permission changes, identify, record/unrecord, token create/edit/list) is dominated on every path by the test of its permission on the acting client, by current membership (c.group != nil) and - where the sink acts on a group or a token - by the identity of that group with the member's own group; token creation additionally by expiry present, no subgroup scope, and the subset loop over the delegated permissions. " +
 			"R11.2: group.AddClient installs permissions (Client.Init) only on a path that ends in admission, and the join handler records the group (or removes the client again) on every path after a successful AddClient. " +
 			"R11.3: losing 'present' closes every up-stream with push; leaveGroup clears permissions and group; a permission change always enqueues the notification. " +
+			"R11.6: a queued permission change is applied only in the group it was issued for: every store to the client's permission list in the action handler is dominated by the identity of the client's current group with the group the action carries, and the action is built with the issuer's own group (F-V). " +
+			"R11.5: revoking a permission (unop, unpresent, shutup) stores a list that no longer contains it, however often it was listed: the helper that removes it deletes every occurrence (slices.DeleteFunc with an equality predicate, or a filtering loop that does not stop at the first hit) and each revocation stores that helper's result (F-U). " +
 			"R11.4: WHIP ingest creates a connection only after a successful AddClient and a 'present' test, removing the client on failure; every effect of the WHIP resource handler is guarded by the bearer-token comparison (or an empty session token).",
 		NotDecided: []string{
 			"'from the moment the affected client has been notified' (ordering of the target's queue against its own messages is a schedule-level fact)",
@@ -62,6 +64,10 @@ func runC11(c *Ctx) {
 	c.Rule("R11.2", "E3", "permissions are installed only on admission; a successful AddClient is always recorded or undone", 2)
 	c.Rule("R11.3", "E2/E3", "revocation: losing present closes up-streams with push; leaveGroup clears permissions and group; permission changes are announced", 5)
 	c.Rule("R11.4", "E2/E3", "WHIP: connection only with present after admission; resource effects guarded by the bearer token", 9)
+	c.Rule("R11.5", "E4", "a revocation removes every occurrence of the permission", 4)
+	defer runC11Revoke(c)
+	c.Rule("R11.6", "E2", "a queued permission change is applied only in the group it was issued for", 7)
+	defer runC11ChangeGroup(c)
 	if env.perms == nil || env.grp == nil || env.gname == nil || env.cont == nil {
 		c.Unknown("R11.1", "anchors", 0, "webClient.permissions / webClient.group / Group.name / slices.Contains no longer resolve")
 		return
@@ -725,10 +731,34 @@ func (e *c11env) revocation() {
 				}
 			}
 		}
+		// (a silent return that no store to the permissions can precede changes nothing:
+		// the refusal of a change issued for another group, R11.6)
+		hff := e.eng.Analyze(ha)
+		var pstores []ast.Node
+		ast.Inspect(clause, func(n ast.Node) bool {
+			if as, ok := n.(*ast.AssignStmt); ok {
+				for _, l := range as.Lhs {
+					if se, ok := unparen(l).(*ast.SelectorExpr); ok {
+						if sel := ha.Pkg.TypesInfo.Selections[se]; sel != nil && sel.Obj() == types.Object(e.perms) {
+							pstores = append(pstores, as)
+						}
+					}
+				}
+			}
+			return true
+		})
 		ast.Inspect(clause, func(n ast.Node) bool {
 			if r, ok := n.(*ast.ReturnStmt); ok {
 				if len(r.Results) == 1 && isNilIdent(ha.Pkg.TypesInfo, r.Results[0]) {
-					badRet = append(badRet, p.PosStr(r.Pos()))
+					after := len(pstores) == 0
+					for _, ps := range pstores {
+						if hff.ReachableFrom(ps, r) {
+							after = true
+						}
+					}
+					if after {
+						badRet = append(badRet, p.PosStr(r.Pos()))
+					}
 				}
 			}
 			return true
@@ -958,4 +988,240 @@ func guardEq(ff *FuncFacts, t, want *Term) bool {
 		return true
 	})
 	return ok && n == 1
+}
+
+// R11.5 (F-U): a permission list is a plain copy of what a token or a group
+// file lists and may name a permission twice.  Every revocation in the
+// changePermissionsAction handler stores remove(p, c.permissions), and remove
+// must delete every occurrence.
+func runC11Revoke(c *Ctx) {
+	p := c.P
+	rm := p.Func("rtpconn", "", "remove")
+	ha := p.Func("rtpconn", "", "handleAction")
+	fPerms := p.Field("rtpconn", "webClient", "permissions")
+	if rm == nil || ha == nil || fPerms == nil {
+		c.Unknown("R11.5", "anchors", 0, "rtpconn.remove / handleAction / webClient.permissions not found")
+		return
+	}
+	info := rm.Pkg.TypesInfo
+	params := rm.params(info)
+	if len(params) != 2 || params[0] == nil || params[1] == nil {
+		c.Unknown("R11.5", "anchors", 0, "remove(v, l) no longer has two parameters")
+		return
+	}
+	vObj, lObj := params[0], params[1]
+	// idiom 1: return slices.DeleteFunc(l, func(w) bool { return w == v })
+	okAll, why := false, "neither slices.DeleteFunc(l, func(w) bool { return w == v }) nor a filtering loop over l without an early return"
+	isEqV := func(e ast.Expr, w types.Object) bool {
+		be, ok := unparen(e).(*ast.BinaryExpr)
+		if !ok || be.Op != token.EQL {
+			return false
+		}
+		x, okx := unparen(be.X).(*ast.Ident)
+		y, oky := unparen(be.Y).(*ast.Ident)
+		if !okx || !oky {
+			return false
+		}
+		a, b := info.ObjectOf(x), info.ObjectOf(y)
+		return (a == w && b == vObj) || (a == vObj && b == w)
+	}
+	body := rm.Body()
+	if len(body.List) == 1 {
+		if ret, ok := body.List[0].(*ast.ReturnStmt); ok && len(ret.Results) == 1 {
+			if call, ok := unparen(ret.Results[0]).(*ast.CallExpr); ok && len(call.Args) == 2 {
+				if f := calleeOf(&CallSite{Call: call, In: rm}); f != nil && f.Pkg() != nil && f.Pkg().Path() == "slices" && f.Name() == "DeleteFunc" {
+					if id, ok := unparen(call.Args[0]).(*ast.Ident); ok && info.ObjectOf(id) == lObj {
+						if lit, ok := unparen(call.Args[1]).(*ast.FuncLit); ok && len(lit.Body.List) == 1 && len(lit.Type.Params.List) == 1 && len(lit.Type.Params.List[0].Names) == 1 {
+							if r2, ok := lit.Body.List[0].(*ast.ReturnStmt); ok && len(r2.Results) == 1 && isEqV(r2.Results[0], info.Defs[lit.Type.Params.List[0].Names[0]]) {
+								okAll = true
+							}
+						}
+					}
+				}
+			}
+		}
+	}
+	// idiom 2: a loop over l that keeps the other elements and never leaves early
+	if !okAll {
+		var loop *ast.RangeStmt
+		nloops := 0
+		ast.Inspect(body, func(n ast.Node) bool {
+			if rs, ok := n.(*ast.RangeStmt); ok {
+				nloops++
+				loop = rs
+			}
+			return true
+		})
+		if nloops == 1 {
+			if id, ok := unparen(loop.X).(*ast.Ident); ok && info.ObjectOf(id) == lObj {
+				early := false
+				ast.Inspect(loop.Body, func(n ast.Node) bool {
+					switch x := n.(type) {
+					case *ast.ReturnStmt:
+						early = true
+					case *ast.BranchStmt:
+						if x.Tok == token.BREAK || x.Tok == token.GOTO {
+							early = true
+						}
+					}
+					return true
+				})
+				// the elements kept are those that differ from v: an append under w != v
+				keeps := false
+				if wv, ok := loop.Value.(*ast.Ident); ok {
+					wObj := info.ObjectOf(wv)
+					ast.Inspect(loop.Body, func(n ast.Node) bool {
+						ifs, ok := n.(*ast.IfStmt)
+						if !ok {
+							return true
+						}
+						be, ok := unparen(ifs.Cond).(*ast.BinaryExpr)
+						if !ok || be.Op != token.NEQ {
+							return true
+						}
+						eq := &ast.BinaryExpr{X: be.X, Y: be.Y, Op: token.EQL}
+						if isEqV(eq, wObj) {
+							keeps = true
+						}
+						return true
+					})
+				}
+				if early {
+					why = "the loop of remove stops at the first occurrence: a permission listed twice survives its revocation"
+				} else if keeps {
+					okAll = true
+				}
+			}
+		}
+	}
+	c.Check(okAll, "R11.5", "remove deletes every occurrence", rm.Pos(), "every element equal to v is dropped", why)
+	// each revocation stores remove(<const>, c.permissions) into c.permissions
+	hinfo := ha.Pkg.TypesInfo
+	k := newKeyer()
+	n := 0
+	ast.Inspect(ha.Body(), func(nd ast.Node) bool {
+		call, ok := nd.(*ast.CallExpr)
+		if !ok || !fnIs(calleeOf(&CallSite{Call: call, In: ha}), "rtpconn", "", "remove") || len(call.Args) != 2 {
+			return true
+		}
+		n++
+		perm, _ := constString(hinfo, call.Args[0])
+		okStore := false
+		if as, isAs := p.Parent(ha.File, call).(*ast.AssignStmt); isAs && len(as.Lhs) == 1 && len(as.Rhs) == 1 {
+			if ls, ok := unparen(as.Lhs[0]).(*ast.SelectorExpr); ok {
+				if rs, ok := unparen(call.Args[1]).(*ast.SelectorExpr); ok {
+					sl, sr := hinfo.Selections[ls], hinfo.Selections[rs]
+					if sl != nil && sr != nil && sl.Obj() == types.Object(fPerms) && sr.Obj() == types.Object(fPerms) && types.ExprString(ls.X) == types.ExprString(rs.X) {
+						okStore = true
+					}
+				}
+			}
+		}
+		c.Check(okStore, "R11.5", k.key("revocation of", perm, "stores the shortened list"), call.Pos(), "c.permissions = remove(\""+perm+"\", c.permissions)", "the result of remove is not stored back into the client's own permission list")
+		return true
+	})
+	if n < 3 {
+		c.Bad("R11.5", "revocations found", ha.Pos(), fmt.Sprintf("only %d calls of remove in the action handler (unop, unpresent, shutup expected)", n))
+	}
+}
+
+// R11.6 (F-V): permission changes travel through the target's action queue and
+// are applied by the target's own loop, which may have left the group and
+// joined another one in between.  Every store to webClient.permissions in
+// handleAction needs c.group == <the group carried by the action>; the action
+// is built with the group the issuer acted in.
+func runC11ChangeGroup(c *Ctx) {
+	p := c.P
+	ha := p.Func("rtpconn", "", "handleAction")
+	hm := p.Func("rtpconn", "", "handleClientMessage")
+	fPerms := p.Field("rtpconn", "webClient", "permissions")
+	fGroup := p.Field("rtpconn", "webClient", "group")
+	tn := p.TypeName("rtpconn", "changePermissionsAction")
+	if ha == nil || hm == nil || fPerms == nil || fGroup == nil || tn == nil {
+		c.Unknown("R11.6", "anchors", 0, "handleAction / handleClientMessage / changePermissionsAction not found")
+		return
+	}
+	isGroupPtr := func(t types.Type) bool {
+		pt, ok := t.(*types.Pointer)
+		if !ok {
+			return false
+		}
+		nt, ok := pt.Elem().(*types.Named)
+		return ok && nt.Obj().Name() == "Group" && nt.Obj().Pkg() != nil && nt.Obj().Pkg().Name() == "group"
+	}
+	info := ha.Pkg.TypesInfo
+	ff := p.Facts().Analyze(ha)
+	k := newKeyer()
+	n := 0
+	ast.Inspect(ha.Body(), func(nd ast.Node) bool {
+		as, ok := nd.(*ast.AssignStmt)
+		if !ok {
+			return true
+		}
+		for _, l := range as.Lhs {
+			se, ok := unparen(l).(*ast.SelectorExpr)
+			if !ok {
+				continue
+			}
+			if sel := info.Selections[se]; sel == nil || sel.Obj() != types.Object(fPerms) {
+				continue
+			}
+			n++
+			st, _ := ff.At(as)
+			okG := false
+			if st != nil {
+				base := ff.term(se.X)
+				for _, f := range st.Facts() {
+					if f.Op != "eq" || !f.Pos || f.B == nil || base == nil {
+						continue
+					}
+					for _, pr := range [][2]*Term{{f.A, f.B}, {f.B, f.A}} {
+						// c.group == <something>.<field of type *group.Group> of the action
+						if pr[0].K == 'f' && pr[0].Obj == types.Object(fGroup) && len(pr[0].Args) == 1 && pr[0].Args[0].String() == base.String() &&
+							pr[1].K == 'f' && pr[1].Obj != types.Object(fGroup) && isGroupPtr(pr[1].Obj.Type()) {
+							okG = true
+						}
+					}
+				}
+			}
+			c.Check(okG, "R11.6", k.key("store to permissions", types.ExprString(as.Rhs[0])), as.Pos(), "dominated by c.group == a.group", "a queued permission change is applied whatever group the client is in by now: a change issued in one group takes effect in the group the client joined since (an operator of a group of one's own can make a second connection operator anywhere)")
+		}
+		return true
+	})
+	if n < 6 {
+		c.Bad("R11.6", "stores to permissions in the action handler", ha.Pos(), fmt.Sprintf("only %d found (op, unop x2, present, unpresent, shutup, unshutup expected)", n))
+	}
+	// the action is built with the issuer's own group
+	minfo := hm.Pkg.TypesInfo
+	mf := p.Facts().Analyze(hm)
+	nl := 0
+	ast.Inspect(hm.Body(), func(nd ast.Node) bool {
+		cl, ok := nd.(*ast.CompositeLit)
+		if !ok || !types.Identical(minfo.TypeOf(cl), tn.Type()) {
+			return true
+		}
+		nl++
+		okLit := false
+		st, _ := mf.At(cl)
+		recv := hm.params(minfo)[0]
+		for _, el := range cl.Elts {
+			e := el
+			if kv, isKV := el.(*ast.KeyValueExpr); isKV {
+				e = kv.Value
+			}
+			if t := minfo.TypeOf(e); t == nil || !isGroupPtr(t) {
+				continue
+			}
+			gt := mf.term(e)
+			own := TField(TVar(recv), fGroup)
+			if gt != nil && st != nil && (gt.String() == own.String() || st.HasFact(mkFact(true, "eq", gt, own)) || st.HasFact(mkFact(true, "eq", own, gt)) || st.EqualUnder(gt, own)) {
+				okLit = true
+			}
+		}
+		c.Check(okLit, "R11.6", "the permission change carries the issuer's group", cl.Pos(), "changePermissionsAction{g, kind} with g == c.group", "the queued permission change does not say which group it was issued for (or names another group)")
+		return true
+	})
+	if nl == 0 {
+		c.Bad("R11.6", "the permission change carries the issuer's group", hm.Pos(), "no changePermissionsAction is built in handleClientMessage")
+	}
 }
